@@ -80,7 +80,15 @@ int64_t* h_list(const char* v, size_t* n);                /* comma list, '-' emp
 /* ---- allocation fault injection (alloc_wrap.c) ---- */
 void h_alloc_arm(long fail_at);   /* start counting requests; the fail_at-th (1-based) returns NULL; 0 = count only */
 long h_alloc_disarm(void);        /* stop; returns the number of requests seen */
-extern long h_alloc_fired;
+void h_alloc_arm_set(const long* idx, int n);  /* same, failing every request whose 1-based index is listed (array must outlive the armed phase) */
+void h_alloc_arm_arena(long fail_at);  /* count arena requests (made from outside arena.c) instead; the fail_at-th returns NULL */
+long h_alloc_seen(void);          /* requests seen so far since arming (does not stop) */
+extern long h_alloc_fired;        /* cumulative number of injected failures */
+#define H_ALLOC_MAX_PCS 24
+extern void* h_alloc_fail_pcs[H_ALLOC_MAX_PCS];  /* return addresses of the first failed request since arming */
+extern int h_alloc_fail_npcs;
+extern long h_alloc_first_fired_at;              /* index of that request (0: none fired since arming) */
+extern int h_alloc_report_fd;                    /* >= 0: {tag 1, index, npcs, pcs[]} of that request is written to this fd when it fires */
 
 /* ---- component registry ---- */
 typedef void (*h_gen_fn)(hctx* h);
